@@ -101,6 +101,7 @@ def envelope_run(ctx, n_requests):
             raise
     eng.engine._process_operation = spy
     cases, meta = [], []
+    held = None
     try:
         for k in range(n_requests):
             items, kw, desc = workload.gen_request(rng, st)
@@ -151,6 +152,22 @@ def envelope_run(ctx, n_requests):
                     ctx.violation({'path': 'encode-failure-replacement', 'problem': p.split(' (')[0][:60]},
                                   {'request': desc, 'kwargs': repr(kw)}, 'replacement response violates the envelope: ' + p)
                 continue
+            # what was returned for the PREVIOUS request must still encode to the same bytes now that another request
+            # has been served (the session encodes after process_request returned, outside the engine lock)
+            if held is not None:
+                h = utils.BytearrayStream()
+                try:
+                    held[0].write(h, kmip_version=enums.KMIPVersion['KMIP_%d_%d' % held[2]])
+                    late = bytes(h.buffer)
+                except Exception as e:
+                    late = 'raised ' + type(e).__name__
+                if late != held[1]:
+                    ctx.violation({'path': 'process_request', 'problem': 'returned response changed by a later request'},
+                                  {'first_request': held[3], 'later_request': desc, 'encoded_at_once': held[1].hex(),
+                                   'encoded_after_the_later_request': late.hex() if isinstance(late, bytes) else late},
+                                  'the response returned for one request encodes differently once another request has been served '
+                                  '(shared response state): ' + '; '.join(ttlvparse.envelope_problems(late, held[2])[0][:2] if isinstance(late, bytes) else [late]))
+            held = (resp['raw'], bytes(s.buffer), version, desc)
             probs, summ = ttlvparse.envelope_problems(s.buffer, version)
             for p in probs:
                 ctx.violation({'path': 'process_request', 'problem': p.split(' (')[0][:60], 'ops': '/'.join(sorted(set(desc)))},
@@ -367,6 +384,13 @@ def session_envelope(ctx):
                 scen.append(('limit-%d' % lim, [kdrv.query()], {'max_size': lim}, None))
             for lim in (-1, -2 ** 31):
                 scen.append(('limit-negative-%d' % -lim, [kdrv.query()], {'max_size': lim}, None))
+            # items addressed through the ID placeholder: the identifier in the answer is filled in by the server
+            for nm, follow in (('activate', kdrv.activate(None)), ('revoke', kdrv.revoke(None)), ('destroy', kdrv.destroy(None)),
+                               ('get', kdrv.get(None)), ('get-attributes', kdrv.get_attributes(None)),
+                               ('get-attribute-list', kdrv.get_attribute_list(None))):
+                scen.append(('placeholder-create-' + nm, [create(), follow], {}, None))
+                scen.append(('placeholder-register-' + nm, [kdrv.register(OT.SYMMETRIC_KEY), follow], {}, None))
+            scen.append(('placeholder-chain', [create(), kdrv.activate(None), kdrv.revoke(None), kdrv.destroy(None)], {}, None))
             rng.shuffle(scen)
             scen = setup + scen + [('create-again', [create()], {}, None)]
             stream = b''
